@@ -16,6 +16,7 @@ from genlm.grammar.semiring import Boolean, Float
 
 ID = "C05"
 LEVEL = "model_checking"
+CASE_HARD_TIMEOUT = 1500  # the thorough tier's cold CKY query on a 520-token context is O(n^3) in pure Python
 TIER = "quick"
 FRACW = [Fraction(1, 2), Fraction(1, 3), Fraction(1, 5), Fraction(1, 7), Fraction(1, 4), Fraction(3, 10)]
 FLOATW = [0.5, 1 / 3, 0.2, 1 / 7, 0.25, 0.3]
